@@ -206,8 +206,11 @@ MIXIN_QUERIES = [
 
 def package_jobs():
     jobs = []
-    for j in corpus.fragment_packages(12, 5, 7, avoid=("UD", "node { ...UA }", "nodes {", "user { ...NA }", "named { ...MA ...NA }", "...UE ...MA }")):
+    for j in corpus.fragment_packages(12, 5, 7, avoid=("UD", "node { ...UA }", "nodes {", "user { ...NA }", "named { ...MA ...NA }", "...UE ...MA }", "named { ...NA name }", "named { id ...NB }")):
         jobs.append((j["schema"], j["queries"], None, None))
+    # a fragment on a parent interface spread directly in a field whose type is a child interface (kept apart from operations that use
+    # the same fragments as base classes: that mixture is the listed defect C08-fragment-excluded)
+    jobs.append((corpus.S_ABS, "query P1 { named { ...NA name } }\nquery P2 { named { id ...NB } }\n" + corpus.FRAG_POOL["NA"] + "\n" + corpus.FRAG_POOL["NB"], None, None))
     for q in MIXIN_QUERIES:
         jobs.append((corpus.S_ABS, q, {"mixins.py": MIXIN_PY}, {"files_to_include": ["mixins.py"]}))
     jobs.append((corpus.S_ABS, "\n".join(MIXIN_QUERIES), {"mixins.py": MIXIN_PY}, {"files_to_include": ["mixins.py"]}))
